@@ -323,7 +323,7 @@ pub fn tap_leaf_hash(leaf_version: u8, script: &[u8]) -> [u8; 32] {
 
 /// anchor on the 20 Elements Core vectors pinned in the repository
 pub fn self_test() -> Result<(), String> {
-    let path = format!("{}/corpus/sighash_vectors.json", crate::engine::VERIF_DIR);
+    let path = format!("{}/corpus/sighash_vectors.json", crate::engine::verif_dir());
     let s = std::fs::read_to_string(&path).map_err(|e| format!("{}: {}", path, e))?;
     let v: serde_json::Value = serde_json::from_str(&s).map_err(|e| e.to_string())?;
     let arr = v.as_array().ok_or("vectors not an array")?;
